@@ -106,8 +106,8 @@ ClCumulative(q) == Len(q.cum) = 0 \/ LET vs == VScale(q) IN
                    /\ \A j \in 2..(N(q) - 1) : Near(DSub(q.cum[j], q.cum[j - 1]), q.volumes[j], q.tolk, DMax(vs, DAbs(q.cum[j])))
 ClShape(q) == Len(q.volumes) = N(q) - 1 /\ Len(q.dist) = N(q) - 1
 
-\* single condensation step between points s and s + 1 (1-based, within the window): the distribution
-\* has its maximum at the step interval, the pore volume attributed to all other widths is not positive
+\* single condensation step between points s and s + 1 (1-based, within the window): the pore volumes
+\* have their maximum at the step interval, the pore volume attributed to all other widths is not positive
 \* beyond 5 % of the peak (with a non-zero layer the recurrences leave small negative - and, through
 \* their feedback, minute positive - artefacts there: at most 0.8 % on the unchanged tree), and with
 \* the zero-thickness layer every other entry is exactly zero.
@@ -118,7 +118,8 @@ ClSingleStep(q) ==
    q.step = 0 \/
    LET dv == DSub(q.V[q.step + 1], q.V[q.step])
        eps == DMul(Tol(q.tolk), dv)
-       pk == ArgMax(q.dist)
+       pk == ArgMax(q.volumes)        \* the peak of the pore-volume histogram (the density over very unequal width
+                                      \* increments can be dominated by a minute artefact in a 0.1 nm bin; Density ties the two)
    IN /\ DLt(DZero, q.volumes[q.step])                                               \* a peak where the step is
       /\ DLeq(MSum(PosPart(q)), DMul(PeakShare, q.volumes[q.step]))                   \* and no second one
       /\ (q.zero => \A j \in 1..(N(q) - 1) : j # q.step => DLeq(DAbs(q.volumes[j]), eps))
